@@ -57,6 +57,10 @@ def run(chk):
 
 
 def replay(chk, path):
+    rep = json.load(open(path)).get("replay", {})
+    sess = rep.get("session") or []
+    if sess and isinstance(sess[0], dict) and sess[0].get("ev") == "FieldNf":
+        return replay_session(chk, path, "Trace_Fields", "Trace_Fields.cfg")
     return replay_session(chk, path, "Trace_Roundtrip", "Trace_Roundtrip.cfg")
 
 
